@@ -117,6 +117,18 @@ Definition parse_braced_word (bt : bool) (s : str) : pres word :=
       end
   end.
 
+(* parse_braced_string: through the close brace, nothing required of what follows (expressions) *)
+Definition parse_braced_string (s : str) : pres word :=
+  match s with
+  | [] => PErr (lit "missing close-brace")
+  | _ :: r =>
+      match parse_braced_body r O [] with
+      | POk text rest => POk (WValue text) rest
+      | PErr m => PErr m
+      | PFuel => PFuel
+      end
+  end.
+
 (* parse_varname_literal (types.rs VarName): name, optional index *)
 Fixpoint last_and_init (s : str) : option (str * char) :=
   match s with
@@ -209,7 +221,7 @@ with parse_next_word (fuel : nat) (bt : bool) (s : str) {struct fuel} : pres wor
                   else
                     (* the expanded word is an ordinary word: "{*}" is not recognised again *)
                     match (if d =? c_lbrace then parse_braced_word bt r3
-                           else if d =? c_dquote then parse_quoted f bt (tl r3) tk_new
+                           else if d =? c_dquote then parse_quoted f bt true (tl r3) tk_new
                            else parse_bare f bt false r3 tk_new) with
                     | POk w rest => POk (WExpand w) rest
                     | PErr m => PErr m
@@ -217,14 +229,15 @@ with parse_next_word (fuel : nat) (bt : bool) (s : str) {struct fuel} : pres wor
                     end
               end
             else parse_braced_word bt s
-          else if c =? c_dquote then parse_quoted f bt r tk_new
+          else if c =? c_dquote then parse_quoted f bt true r tk_new
           else parse_bare f bt false s tk_new
       | [] => parse_bare f bt false s tk_new
       end
   end
 
-(* parse_quoted_word, after the opening quote *)
-with parse_quoted (fuel : nat) (bt : bool) (s : str) (t : tokens) {struct fuel} : pres word :=
+(* parse_quoted_string, after the opening quote; chk = true adds parse_quoted_word's test of
+   what follows the close quote (commands), chk = false leaves it to the caller (expressions) *)
+with parse_quoted (fuel : nat) (bt : bool) (chk : bool) (s : str) (t : tokens) {struct fuel} : pres word :=
   match fuel with
   | O => PFuel
   | S f =>
@@ -233,22 +246,22 @@ with parse_quoted (fuel : nat) (bt : bool) (s : str) (t : tokens) {struct fuel} 
       | c :: r =>
           if c =? c_lbracket then
             match parse_brackets f r with
-            | POk sc rest => parse_quoted f bt rest (tk_push t (WScript sc))
+            | POk sc rest => parse_quoted f bt chk rest (tk_push t (WScript sc))
             | PErr m => PErr m
             | PFuel => PFuel
             end
           else if c =? c_dollar then
             match parse_dollar f bt r t with
-            | POk t' rest => parse_quoted f bt rest t'
+            | POk t' rest => parse_quoted f bt chk rest t'
             | PErr m => PErr m
             | PFuel => PFuel
             end
           else if c =? c_bslash then
-            let '(ch, rest) := bsubst r in parse_quoted f bt rest (tk_push_char t ch)
+            let '(ch, rest) := bsubst r in parse_quoted f bt chk rest (tk_push_char t ch)
           else if c =? c_dquote then
-            if at_end_of_command bt r || next_is_line_white r then POk (tk_take t) r
+            if negb chk || at_end_of_command bt r || next_is_line_white r then POk (tk_take t) r
             else PErr (lit "extra characters after close-quote")
-          else parse_quoted f bt r (tk_push_char t c)
+          else parse_quoted f bt chk r (tk_push_char t c)
       end
   end
 
